@@ -32,6 +32,7 @@ func runC17(c *Ctx) {
 	c17R4(c)
 	c17R5(c)
 	c17R6(c)
+	livePersisted(c, c.R.Rule("R7", "K8 what is persisted is the live instance: a pipeline/connector/processor service method that fetched an instance hands that very instance to store.Set, or a copy that sets every exported field", 10))
 }
 
 // c17R6: one pipeline that cannot be resumed does not keep the others stopped.
